@@ -1,9 +1,460 @@
+/-
+C18 — client totality of the list pager (`ociclient.pager`).
+
+The pager loop, with its page size defaulted by `ociclient.New`, run against ANY
+finite script of server answers (short pages, empty pages, full pages, missing or
+malformed Link headers, failures) and ANY consumer (one that declines upon its
+j-th item, or never):
+
+* T1 never reaches the Go panic site `items[len(items)-1]` on an empty page
+  (`pager_no_panic`, `pager_no_panic_configured`); without the defaulting of
+  non-positive page sizes it does (`pager_panics_on_nonpositive`, the former defect).
+* T2 terminates: one request per answer consumed (`pager_terminates`,
+  `pager_exhausted_all_consumed`, `pager_exhausted_or_final`).
+* T3 makes progress: a request that is followed by another request delivered a full
+  page of at least `n ≥ 1` items (`pager_progress`, `pager_progress_at`, `pager_yield_lower_bound`).
+* T4 honours the consumer protocol: nothing is delivered after the consumer declines
+  (`deliver_budget`, `pager_respects_consumer`, `pager_stopped_exact`,
+  `pager_never_stopped`), and nothing after an error (`pager_nothing_after_error`).
+-/
 import OciModel.Pager
+import OciModel.PagerLemmas
 namespace OciModel.Props.C18
 open OciModel.Pager
 
 /-- A non-positive configured page size is replaced by the default. -/
 theorem effectivePageSize_pos (n : Int) : 1 ≤ effectivePageSize n := by
   unfold effectivePageSize; split <;> omega
+
+/-! ### T1: no panic -/
+
+/-- With a positive page size the pager never indexes an empty page. -/
+theorem pager_no_panic (n : Int) (as : List Answer) (k : Option Nat) (hn : 1 ≤ n) :
+    (pagerScript n as k).fin ≠ .panic := by
+  induction as generalizing k with
+  | nil => simp [pagerScript_nil]
+  | cons a rest ih =>
+    cases a with
+    | fail => simp [pagerScript_fail]
+    | page items link =>
+      rw [pagerScript_page]
+      split
+      · simp
+      split
+      · simp
+      split
+      · rename_i hlen hnil
+        subst hnil
+        exact absurd (show ((([] : List Bytes).length : Nat) : Int) < n by simp; omega) hlen
+      split
+      · simp
+      · exact ih _
+
+/-- For every configured page size — negative, zero or positive — the pager as set up
+by `ociclient.New` never panics. -/
+theorem pager_no_panic_configured (n : Int) (as : List Answer) (k : Option Nat) :
+    (pagerScript (effectivePageSize n) as k).fin ≠ .panic :=
+  pager_no_panic _ as k (effectivePageSize_pos n)
+
+/-- The guard matters: a non-defaulted negative page size panics on an empty page
+(the defect that `effectivePageSize` repairs: only `0` used to be defaulted). -/
+theorem pager_panics_on_nonpositive :
+    (pagerScript (-1) [.page [] none] none).fin = .panic := by decide
+
+/-- Likewise for page size zero. -/
+theorem pager_panics_on_zero :
+    (pagerScript 0 [.page [] (some true)] none).fin = .panic := by decide
+
+/-! ### T2: termination -/
+
+/-- One answer is consumed per request: against finitely many answers the loop ends. -/
+theorem pager_terminates (n : Int) (as : List Answer) (k : Option Nat) :
+    (pagerScript n as k).requests ≤ as.length := by
+  induction as generalizing k with
+  | nil => simp [pagerScript_nil]
+  | cons a rest ih =>
+    cases a with
+    | fail => simp [pagerScript_fail]
+    | page items link =>
+      rw [pagerScript_page]
+      have := ih (deliver items k).2.1
+      repeat' split
+      all_goals simp
+      exact this
+
+/-- The run ends `exhausted` (the next request would block on the peer) only when every
+scripted answer was consumed. -/
+theorem pager_exhausted_all_consumed (n : Int) (as : List Answer) (k : Option Nat) :
+    (pagerScript n as k).fin = .exhausted → (pagerScript n as k).requests = as.length := by
+  induction as generalizing k with
+  | nil => simp [pagerScript_nil]
+  | cons a rest ih =>
+    cases a with
+    | fail => simp [pagerScript_fail]
+    | page items link =>
+      rw [pagerScript_page]
+      have := ih (deliver items k).2.1
+      repeat' split
+      all_goals simp
+      exact this
+
+/-- Whenever the run did not use up the script, it ended for a definite reason:
+complete, error delivered, consumer declined (or the Go panic, excluded by T1). -/
+theorem pager_final_of_unconsumed (n : Int) (as : List Answer) (k : Option Nat)
+    (h : (pagerScript n as k).requests < as.length) :
+    (pagerScript n as k).fin ≠ .exhausted := by
+  intro he
+  have := pager_exhausted_all_consumed n as k he
+  omega
+
+/-- Either the run ended for a definite reason, or it consumed the whole script. -/
+theorem pager_exhausted_or_final (n : Int) (as : List Answer) (k : Option Nat) :
+    (pagerScript n as k).fin ≠ .exhausted ∨ (pagerScript n as k).requests = as.length := by
+  by_cases h : (pagerScript n as k).fin = .exhausted
+  · exact .inr (pager_exhausted_all_consumed n as k h)
+  · exact .inl h
+
+/-- Every request but the first was preceded by a request: at least one request is made
+as soon as there is an answer to consume. -/
+theorem pager_requests_pos (n : Int) (a : Answer) (rest : List Answer) (k : Option Nat) :
+    1 ≤ (pagerScript n (a :: rest) k).requests := by
+  cases a with
+  | fail => simp [pagerScript_fail]
+  | page items link =>
+    rw [pagerScript_page]
+    repeat' split
+    all_goals simp
+
+/-! ### T3: progress -/
+
+/-- A first request that is followed by another request delivered a full page: at least
+`n` items, a non-empty page, and a usable (absent or well-formed) Link; and the consumer
+had not declined. (No hypothesis on `n` is needed for this direction: for `n ≤ 0` an empty
+page leads to the panic end instead of a further request.) -/
+theorem pager_progress (n : Int) (items : List Bytes) (link : Option Bool)
+    (rest : List Answer) (k : Option Nat)
+    (h : 1 < (pagerScript n (.page items link :: rest) k).requests) :
+    n ≤ (items.length : Int) ∧ items ≠ [] ∧ link ≠ some false ∧
+      (deliver items k).2.2 = false := by
+  rw [pagerScript_page] at h
+  split at h
+  · simp at h
+  split at h
+  · simp at h
+  split at h
+  · simp at h
+  split at h
+  · simp at h
+  · rename_i h1 h2 h3 h4
+    refine ⟨by omega, h3, h4, by simpa using h1⟩
+
+/-- A failing first answer is never followed by another request. -/
+theorem pager_fail_single (n : Int) (rest : List Answer) (k : Option Nat) :
+    (pagerScript n (.fail :: rest) k).requests = 1 := rfl
+
+/-- Progress along the whole script: if the pager goes on to make a request after
+consuming the answer at position `pre.length`, that answer was a full, non-empty page. -/
+theorem pager_progress_at (n : Int) (pre : List Answer) (a : Answer)
+    (post : List Answer) (k : Option Nat)
+    (h : pre.length + 1 < (pagerScript n (pre ++ a :: post) k).requests) :
+    ∃ items link, a = .page items link ∧ n ≤ (items.length : Int) ∧ items ≠ [] := by
+  induction pre generalizing k with
+  | nil =>
+    cases a with
+    | fail => simp [pagerScript_fail] at h
+    | page items link =>
+      have := pager_progress n items link post k (by simpa using h)
+      exact ⟨items, link, rfl, this.1, this.2.1⟩
+  | cons b pre ih =>
+    cases b with
+    | fail => simp [pagerScript_fail] at h
+    | page items link =>
+      rw [List.cons_append, pagerScript_page] at h
+      split at h
+      · simp at h
+      split at h
+      · simp at h
+      split at h
+      · simp at h
+      split at h
+      · simp at h
+      · exact ih (deliver items k).2.1 (by simpa using h)
+
+/-- With `1 ≤ n`, a request that is followed by another delivered at least one item. -/
+theorem pager_progress_pos (n : Int) (hn : 1 ≤ n) (items : List Bytes) (link : Option Bool)
+    (rest : List Answer) (k : Option Nat)
+    (h : 1 < (pagerScript n (.page items link :: rest) k).requests) :
+    1 ≤ items.length := by
+  have := (pager_progress n items link rest k h).1
+  omega
+
+/-- No looping without progress, quantitatively: a consumer that never declines has
+received at least `n` items for every request but the last. -/
+theorem pager_yield_lower_bound (n : Int) (hn : 0 ≤ n) (as : List Answer) :
+    n * (((pagerScript n as none).requests : Int) - 1)
+      ≤ ((pagerScript n as none).yielded.length : Int) := by
+  induction as with
+  | nil =>
+    simp only [pagerScript_nil, List.length_nil, Int.mul_sub, Int.mul_one]
+    simp; omega
+  | cons a rest ih =>
+    cases a with
+    | fail => simp [pagerScript_fail]
+    | page items link =>
+      rw [pagerScript_page]
+      simp only [deliver_none]
+      rw [if_neg (by simp)]
+      split
+      · simp
+      split
+      · simp
+      split
+      · simp
+      · rename_i h1 _ _
+        simp only [Int.mul_sub, Int.mul_one, Int.natCast_add, Int.mul_add, List.length_append]
+          at ih ⊢
+        omega
+
+/-! ### T4: consumer protocol -/
+
+/-- A consumer that will decline upon its `(j+1)`-th item receives the first `j+1` items
+of the page and no more; it declines iff the page had that many; otherwise its remaining
+budget stays positive. -/
+theorem deliver_budget (items : List Bytes) (j : Nat) :
+    (deliver items (some (j + 1))).1 = items.take (j + 1) ∧
+    (deliver items (some (j + 1))).1.length ≤ j + 1 ∧
+    (deliver items (some (j + 1))).1 <+: items ∧
+    ((deliver items (some (j + 1))).2.2 = true ↔
+      (deliver items (some (j + 1))).1.length = j + 1) ∧
+    ((deliver items (some (j + 1))).2.2 = false →
+      (deliver items (some (j + 1))).1 = items ∧
+      (deliver items (some (j + 1))).2.1 = some (j + 1 - items.length) ∧
+      items.length < j + 1) := by
+  rw [deliver_succ]
+  refine ⟨rfl, ?_, List.take_prefix _ _, ?_, ?_⟩
+  · simp [List.length_take]; omega
+  · simp [List.length_take]; omega
+  · intro h
+    have : items.length < j + 1 := by simpa using h
+    exact ⟨List.take_of_length_le (by omega), rfl, this⟩
+
+/-- A consumer that never declines receives the whole page. -/
+theorem deliver_unbounded (items : List Bytes) :
+    deliver items none = (items, none, false) := deliver_none items
+
+/-- The pager never delivers more than the consumer accepts. -/
+theorem pager_respects_consumer (n : Int) (as : List Answer) (j : Nat) :
+    (pagerScript n as (some (j + 1))).yielded.length ≤ j + 1 := by
+  induction as generalizing j with
+  | nil => simp [pagerScript_nil]
+  | cons a rest ih =>
+    cases a with
+    | fail => simp [pagerScript_fail]
+    | page items link =>
+      rw [pagerScript_page]
+      have hb := deliver_budget items j
+      split
+      · exact hb.2.1
+      · rename_i hs
+        have hs' : (deliver items (some (j + 1))).2.2 = false := by simpa using hs
+        obtain ⟨hd, hk, hlt⟩ := hb.2.2.2.2 hs'
+        split
+        · exact hb.2.1
+        split
+        · exact hb.2.1
+        split
+        · exact hb.2.1
+        · simp only [List.length_append, hd, hk]
+          obtain ⟨m, hm⟩ : ∃ m, j + 1 - items.length = m + 1 := ⟨j - items.length, by omega⟩
+          rw [hm]
+          have := ih m
+          omega
+
+/-- When the run ends because the consumer declined, the consumer received exactly the
+number of items it was willing to take (so: it declined on its last accepted item and
+was never called again). -/
+theorem pager_stopped_exact (n : Int) (as : List Answer) (j : Nat) :
+    (pagerScript n as (some (j + 1))).fin = .stopped →
+      (pagerScript n as (some (j + 1))).yielded.length = j + 1 := by
+  induction as generalizing j with
+  | nil => simp [pagerScript_nil]
+  | cons a rest ih =>
+    cases a with
+    | fail => simp [pagerScript_fail]
+    | page items link =>
+      rw [pagerScript_page]
+      have hb := deliver_budget items j
+      split
+      · rename_i hs
+        intro _
+        exact hb.2.2.2.1.mp hs
+      · rename_i hs
+        have hs' : (deliver items (some (j + 1))).2.2 = false := by simpa using hs
+        obtain ⟨hd, hk, hlt⟩ := hb.2.2.2.2 hs'
+        split
+        · simp
+        split
+        · simp
+        split
+        · simp
+        · simp only [List.length_append, hd, hk]
+          obtain ⟨m, hm⟩ : ∃ m, j + 1 - items.length = m + 1 := ⟨j - items.length, by omega⟩
+          rw [hm]
+          intro h
+          have := ih m h
+          omega
+
+/-- A consumer that never declines never causes the run to end `stopped`. -/
+theorem pager_never_stopped (n : Int) (as : List Answer) :
+    (pagerScript n as none).fin ≠ .stopped := by
+  induction as with
+  | nil => simp [pagerScript_nil]
+  | cons a rest ih =>
+    cases a with
+    | fail => simp [pagerScript_fail]
+    | page items link =>
+      rw [pagerScript_page]
+      simp only [deliver_none]
+      repeat' split
+      all_goals first | exact ih | simp_all
+
+/-- Everything the pager delivers comes, in order, from the pages of the script. -/
+def pagesOf : List Answer → List Bytes
+  | [] => []
+  | .fail :: rest => pagesOf rest
+  | .page items _ :: rest => items ++ pagesOf rest
+
+theorem pager_yields_prefix (n : Int) (as : List Answer) (k : Option Nat) (hk : k ≠ some 0) :
+    (pagerScript n as k).yielded <+: pagesOf as := by
+  induction as generalizing k with
+  | nil => simp [pagerScript_nil, pagesOf]
+  | cons a rest ih =>
+    cases a with
+    | fail => simp [pagerScript_fail]
+    | page items link =>
+      rw [pagerScript_page]
+      have hpre : (deliver items k).1 <+: items ∧
+          ((deliver items k).2.2 = false →
+            (deliver items k).1 = items ∧ (deliver items k).2.1 ≠ some 0) := by
+        cases k with
+        | none => simp [deliver_none]
+        | some j =>
+          cases j with
+          | zero => exact absurd rfl hk
+          | succ j =>
+            have hb := deliver_budget items j
+            refine ⟨hb.2.2.1, fun h => ?_⟩
+            obtain ⟨hd, hk', hlt⟩ := hb.2.2.2.2 h
+            refine ⟨hd, ?_⟩
+            rw [hk']; simp; omega
+      have h1 : (deliver items k).1 <+: pagesOf (.page items link :: rest) :=
+        List.IsPrefix.trans hpre.1 (List.prefix_append _ _)
+      split
+      · exact h1
+      · rename_i hs
+        have hs' : (deliver items k).2.2 = false := by simpa using hs
+        obtain ⟨hd, hk'⟩ := hpre.2 hs'
+        split
+        · exact h1
+        split
+        · exact h1
+        split
+        · exact h1
+        · simp only [pagesOf, hd]
+          exact (List.prefix_append_right_inj items).mpr (ih _ hk')
+
+/-- The `error` end is final: whatever the script holds after a failing answer is never
+requested, and nothing is delivered after the error. -/
+theorem pager_nothing_after_error (n : Int) (pre post : List Answer) (k : Option Nat) :
+    pagerScript n (pre ++ .fail :: post) k = pagerScript n (pre ++ [.fail]) k := by
+  induction pre generalizing k with
+  | nil => rfl
+  | cons a pre ih =>
+    cases a with
+    | fail => rfl
+    | page items link =>
+      simp only [List.cons_append, pagerScript_page, ih]
+
+/-- More generally the run only depends on the answers it consumed. -/
+theorem pager_ignores_unconsumed (n : Int) (as post : List Answer) (k : Option Nat)
+    (h : (pagerScript n as k).fin ≠ .exhausted) :
+    pagerScript n (as ++ post) k = pagerScript n as k := by
+  induction as generalizing k with
+  | nil => simp [pagerScript_nil] at h
+  | cons a rest ih =>
+    cases a with
+    | fail => rfl
+    | page items link =>
+      rw [pagerScript_page] at h
+      simp only [List.cons_append, pagerScript_page]
+      split
+      · rfl
+      · rename_i h1
+        rw [if_neg h1] at h
+        split
+        · rfl
+        · rename_i h2
+          rw [if_neg h2] at h
+          split
+          · rfl
+          · rename_i h3
+            rw [if_neg h3] at h
+            split
+            · rfl
+            · rename_i h4
+              rw [if_neg h4] at h
+              rw [ih _ h]
+
+/-- A malformed Link header on a full page ends the run with `error` after delivering
+that page (the items are delivered before the Link is examined). -/
+theorem pager_bad_link_is_error (n : Int) (items : List Bytes) (rest : List Answer)
+    (hfull : n ≤ (items.length : Int)) (hne : items ≠ []) :
+    pagerScript n (.page items (some false) :: rest) none = ⟨items, 1, .error⟩ := by
+  rw [pagerScript_page]
+  simp only [deliver_none]
+  simp [hne]; omega
+
+/-! ### Examples (evaluated) -/
+
+-- three full pages of size 2 then a short page: complete after four requests
+example :
+    pagerScript 2
+      [.page [[1], [2]] (some true), .page [[3], [4]] none, .page [[5], [6]] (some true),
+       .page [[7]] none, .page [[9]] none] none
+      = ⟨[[1], [2], [3], [4], [5], [6], [7]], 4, .done⟩ := by decide
+
+-- exact multiple: the final page is empty
+example :
+    pagerScript 2 [.page [[1], [2]] (some true), .page [] none] none
+      = ⟨[[1], [2]], 2, .done⟩ := by decide
+
+-- the consumer declines on its third item, in the middle of the second page
+example :
+    pagerScript 2
+      [.page [[1], [2]] (some true), .page [[3], [4]] (some true), .page [[5]] none] (some 3)
+      = ⟨[[1], [2], [3]], 2, .stopped⟩ := by decide
+
+-- a failure on the second request: the first page was delivered, then the error, then nothing
+example :
+    pagerScript 2 [.page [[1], [2]] (some true), .fail, .page [[3]] none] none
+      = ⟨[[1], [2]], 2, .error⟩ := by decide
+
+-- malformed Link on a full page
+example :
+    pagerScript 2 [.page [[1], [2]] (some false), .page [[3]] none] none
+      = ⟨[[1], [2]], 1, .error⟩ := by decide
+
+-- a server that keeps sending full pages: the run is bounded by the script
+example :
+    pagerScript 1 [.page [[1]] none, .page [[1]] none, .page [[1]] none] none
+      = ⟨[[1], [1], [1]], 3, .exhausted⟩ := by decide
+
+-- an over-long page (more than n items) is delivered whole and the loop continues
+example :
+    pagerScript 2 [.page [[1], [2], [3]] none, .page [] none] none
+      = ⟨[[1], [2], [3]], 2, .done⟩ := by decide
+
+-- default page size in effect for n = -5: an empty page is a short page
+example : (pagerScript (effectivePageSize (-5)) [.page [] none] none).fin = .done := by decide
 
 end OciModel.Props.C18
